@@ -134,6 +134,11 @@ union UChild extends UOpen
     extra Int32
     extra_s Empty
 
+union USib extends UOpen
+    "a sibling of UChild: the same tag names with other types"
+    extra String(max_length=3)
+    extra_s Plain
+
 union_closed UnionCc2 extends UnionCc
     more
 
@@ -173,7 +178,7 @@ alias ARes = Res
 PRIM_LEAVES = ['Int32', 'Int32(min_value=-5, max_value=5)', 'Int64(min_value=0)', 'Float32(max_value=0)', 'UInt32', 'Int64', 'UInt64(max_value=18446744073709551615)',
                'Float32', 'Float64(min_value=-1.5, max_value=2.5)', 'Boolean', 'String', 'String(min_length=1, max_length=3)',
                'String(pattern="[a-c]+")', 'Bytes', 'Timestamp("%Y-%m-%dT%H:%M:%SZ")', 'Timestamp("%Y")', 'Timestamp("%Y-%m-%dT%H:%M:%S%z")']
-USER_LEAVES = ['Plain', 'Kid', 'GrandKid', 'Empty', 'AllOpt', 'C', 'G', 'Res', 'ResC', 'File', 'UOpen', 'UClosed', 'UnionCc', 'UChild', 'UnionCc2', 'UGrand', 'UColl', 'nb.Foreign', 'nb.ForeignU', 'nb.UClosed']
+USER_LEAVES = ['Plain', 'Kid', 'GrandKid', 'Empty', 'AllOpt', 'C', 'G', 'Res', 'ResC', 'File', 'UOpen', 'UClosed', 'UnionCc', 'UChild', 'USib', 'UnionCc2', 'UGrand', 'UColl', 'nb.Foreign', 'nb.ForeignU', 'nb.UClosed']
 ALIAS_LEAVES = ['APrim', 'AStr', 'APlain', 'ANull', 'ANullOpt', 'ANullE', 'ANullU', 'ANullTs', 'AList', 'AliasA', 'AliasU', 'ARes', 'nb.ForeignA', 'nb.ForeignNull']
 NULLABLE_LEAVES = {'ANull', 'ANullOpt', 'ANullE', 'ANullU', 'ANullTs', 'nb.ForeignNull'}
 
